@@ -42,8 +42,9 @@ TYPES = {"str": str, "int": int, "float": float, "bool": bool, "list": list, "tu
          "set": set, "frozenset": frozenset, "NoneType": type(None), "bytes": bytes}
 COQ_TY = {"str": "TStr", "int": "TInt", "float": "TFloat", "bool": "TBool", "list": "TList", "tuple": "TTuple",
           "dict": "TDict", "set": "TSet", "frozenset": "TFrozen", "NoneType": "TNone", "bytes": "TBytes"}
-DEFECTS = ["K16", "K16b", "K16c", "K16d", "K16e", "K16f"]      # switches of the reference search
+DEFECTS = ["K16", "K16b", "K16c", "K16d", "K16e", "K16f", "K16h"]      # switches of the reference search
 FINDINGS = DEFECTS + ["K16g"]
+CONTAINERS = (list, tuple, dict, set, frozenset)
 
 
 class _Method:
@@ -185,6 +186,10 @@ def ref_search(obj, item, kw, emulate=()):
                 # text in the code: only visible for 'True'/'False')
                 return rx_search(txt, txt)
             return False
+        if isinstance(v, CONTAINERS):
+            # a container matches when it equals a container item (documented nowhere in detail;
+            # as written only items of lists / tuples / sets are compared: K16h, handled by the caller)
+            return isinstance(item, CONTAINERS) and v == item
         return False
 
     item_str = str(needle) if needle is not None else str(item)
@@ -215,19 +220,26 @@ def ref_search(obj, item, kw, emulate=()):
         if type_excluded(needle if needle is not None else item):
             return ("ok", {}, {})
     paths, vals = {}, {}
+
+    def shortcut_hit(steps, w):
+        """as written: an item of a list / tuple / set that equals a container item is reported and not descended into"""
+        return isinstance(item, CONTAINERS) and isinstance(w, CONTAINERS) and bool(steps) and steps[-1][0] == "i" and w == item
     try:
         for steps, v, chain in locations(obj):
             if any(link_excluded(s, w) for s, w in chain[:-1]):
                 continue
+            if "K16h" in E and any(shortcut_hit(s, w) for s, w in chain[:-1]):
+                continue
             if steps and steps[-1][0] == "k":
                 hidden = own_type_excluded(steps, v) or (path_excluded(steps) and "K16b" not in E)
+                hidden = hidden or ("K16h" in E and len(chain) >= 2 and shortcut_hit(*chain[-2]))
                 if not hidden and text_matches(path_text(steps)):
                     paths[path_text(steps)] = v
             if link_excluded(steps, v):
                 continue
-            if value_matches(v):
+            if value_matches(v) and not ("K16h" in E and isinstance(v, CONTAINERS) and not shortcut_hit(steps, v)):
                 vals[path_text(steps)] = v
-            if "K16f" in E and item is None and isinstance(v, (str, bytes)):
+            if "K16f" in E and (item is None or isinstance(item, CONTAINERS)) and isinstance(v, (str, bytes)):
                 # as written: a str is searched as a custom object when the item is None
                 for n in attr_names(v):
                     t = path_text(steps) + "." + n
@@ -360,6 +372,19 @@ def gen_item(rng, obj, locs, use_regexp):
         if r < 0.53:
             return rng.choice([b"a", b"1", b"."])
         return rng.choice(PATTERNS)
+    conts = [v for _, v, _ in locs[1:] if isinstance(v, CONTAINERS)]
+    if r < 0.14 and conts:       # a container item: a sub-container of the object, a == variant of it, or an absent one
+        v = copy.deepcopy(rng.choice(conts))
+        q = rng.random()
+        if q < 0.2 and isinstance(v, list) and v:
+            v = [float(x) if isinstance(x, int) and not isinstance(x, bool) else x for x in v]
+        elif q < 0.3 and isinstance(v, list):
+            v = v + ["zz"]
+        elif q < 0.4 and isinstance(v, (set, frozenset)):
+            v = frozenset(v) if isinstance(v, set) else set(v)
+        elif q < 0.5 and isinstance(v, tuple):
+            v = list(v)
+        return v
     if r < 0.2 and leaves:
         return rng.choice(leaves)
     if r < 0.4 and strs:
@@ -458,9 +483,11 @@ def model_case(obj, item, cfg, locs):
         core.coq_bool(cfg["case_sensitive"]), core.coq_bool(cfg["match_string"]), core.coq_bool(cfg["use_regexp"]),
         core.coq_bool(cfg["strict_checking"]), "; ".join(core.coq_pystr(p) for p in cfg["exclude_paths"]),
         "; ".join(COQ_TY[t] for t in cfg["exclude_types"]))
+    if isinstance(item, CONTAINERS):
+        re_text = str(item)
     return "run_search %s %s %s %s %s %s str_attrs_ bytes_attrs_ %s %s" % (
         core.coq_bool(cfg["verbose_level"] >= 2), c, coq_tbl_bool(re_true), coq_tbl_bool(ex_true), b_tbl,
-        core.coq_pystr(re_text), V.atom_to_coq(item), V.to_coq(obj))
+        core.coq_pystr(re_text), V.to_coq(item), V.to_coq(obj))
 
 
 def expected_of(res, verbose2):
@@ -620,6 +647,7 @@ WITNESSES = {
     "K16e": ([True], 'True', {"strict_checking": False}),
     "K16f": ({None: 'a'}, None, {}),
     "K16g": ({"a'b": 'x'}, 'x', {}),
+    "K16h": ({'a': [1, 2]}, [1, 2], {}),
 }
 # second witness of K16 (Coq: complete_refuted): nothing is reported when the item's own type is excluded
 EXTRA_WITNESSES = [("K16", [1], '1', {"exclude_types": ["str"], "strict_checking": False})]
@@ -774,7 +802,10 @@ def witnesses(ctx):
                                           "detail": "the witness of open finding %s no longer fails on the implementation" % key})
         do_case(ctx, obj, item, cfg, cases, "witness:" + key)
     # documented examples
-    docs = [(["long somewhere", "string", 0, "somewhere great!"], "somewhere", {}),
+    docs = [([[1.0, 2], {'k': [[1, 2], (1, 2)]}, [[1, 2, 3]]], [1, 2], {}),
+            ([{'a': 1}, {1, 2}, frozenset({1, 2}), {'x': {'a': 1}}], {'a': 1}, {}),
+            ([{1, 2}, frozenset({1, 2}), [1, 2]], {1, 2}, {"exclude_types": ["set"]}),
+            (["long somewhere", "string", 0, "somewhere great!"], "somewhere", {}),
             (["something somewhere", {"long": "somewhere", "string": 2, 0: 0, "somewhere": "around"}], "somewhere", {}),
             ({"long": "somewhere", "num": 1123456, 0: 0, "somewhere": "around"}, "1234", {"use_regexp": True, "strict_checking": False}),
             (["a", "10", 10, 20], "20", {"strict_checking": False}),
@@ -788,7 +819,7 @@ def witnesses(ctx):
 
 def run(ctx):
     witnesses(ctx)
-    random_cases(ctx, 12000 if ctx.thorough else 4000)
+    random_cases(ctx, 12000 if ctx.thorough else 3200)
     universe_cases(ctx, 12000 if ctx.thorough else 600)
 
 
